@@ -21,10 +21,11 @@ SRCS = {
     'small': 'x = f(a, b)  # cx\n\n# lead y\ny = [1, 2,  # two\n     3]\nif x:  # h\n    z = x + y  # cz\nelse:\n    z = -x\nprint(z)  # end\n',
     'defs': '@dec\ndef g(p, q=1):  # sig\n    """doc"""\n    r = p * q  # m\n    return r\n\n\nclass K(B):\n    v = g(1)  # cv\n    w: int = 2\n',
     'ifelse2': 'if a:  # h\n    b = 1  # cb\n    c = 2\nelse:\n    d = 3  # cd\n    e = 4\nfor i in z:\n    f = 5\n    g = 6\nelse:\n    h = 7\n    j = 8\nk = 9\n',
+    'prims': 'from ..m import n as o\nasync def f(p, *, q=u"t"):\n    r = [x async for x in y if x]\n    return r.s(k=q)  # c\nglobal g\n',
     'flow': 'for i in range(3):  # loop\n    if i:\n        continue  # c\n    t = (i,\n         i + 1)\nwhile t: t = t[1:]  # shrink\nwith a as b, c:\n    pass  # body\n',
 }
 OPS = ['none', 'cross_fields_after', 'cross_fields_into_body', 'cross_fields_foreign', 'cross_fields_body0_is_orelse0', 'expr_new', 'expr_foreign', 'stmt_delete', 'stmt_insert_new', 'stmt_swap_next', 'stmt_duplicate', 'rename', 'const_change', 'op_change', 'stmt_move_to_end',
-       'expr_swap_sibling', 'const_same_value_other_type', 'stmt_foreign_popped']
+       'expr_swap_sibling', 'const_same_value_other_type', 'stmt_foreign_popped', 'prim_change']
 OTHER = 'o = other(1) + thing\nif ot:\n    oa = 1  # oa\n    ob = 2  # ob\nelse:\n    oc = 3  # oc\n    od = 4  # od\n'
 
 
@@ -38,6 +39,18 @@ def _exprs(tree):
         if isinstance(n, ast.expr) and isinstance(getattr(n, 'ctx', ast.Load()), ast.Load) and not isinstance(n, (ast.Slice, ast.Starred, ast.JoinedStr, ast.FormattedValue)):
             out.append(n)
     return out
+
+
+def _prim_pairs(tree):
+    pairs = []
+    for n_ in ast.walk(tree):
+        for f_ in n_._fields:
+            v_ = getattr(n_, f_, None)
+            if isinstance(n_, ast.Constant) and f_ == 'value' and not isinstance(v_, (int, str)):
+                continue
+            if (isinstance(v_, (str, int)) or (v_ is None and f_ in ('kind', 'asname', 'level'))) and not isinstance(v_, bool) or (isinstance(v_, list) and v_ and all(isinstance(e_, str) for e_ in v_)):
+                pairs.append((n_, f_))
+    return pairs
 
 
 def _where(tree, node):
@@ -109,6 +122,31 @@ def _apply(tree, op, k, other_tree):
         else:
             getattr(p, name)[idx] = new
         return touched
+    if op == 'prim_change':
+        # k-th (node, primitive field) pair of the tree in ast.walk order: identifiers, import level, is_async, Constant.kind / value, Global names
+        pairs = _prim_pairs(tree)
+        if not (0 <= k < len(pairs)):
+            return None
+        n_, f_ = pairs[k]
+        v_ = getattr(n_, f_)
+        if f_ == 'is_async':
+            new_ = 0 if v_ else 1
+        elif f_ == 'kind':
+            new_ = None if v_ else 'u'
+        elif f_ == 'level':
+            new_ = (v_ or 0) + 1
+        elif isinstance(v_, list):
+            new_ = v_ + ['added']
+        elif isinstance(v_, int):
+            new_ = v_ + 100
+        elif v_ is None:
+            new_ = 'newname'
+        elif f_ == 'value':
+            new_ = v_ + 'x'
+        else:
+            new_ = v_ + '_r'
+        setattr(n_, f_, new_)
+        return {id(top_of(n_) or n_)}
     st = _stmts(tree)
     if not (0 <= k < len(st)):
         return None
@@ -185,12 +223,13 @@ def _mk(key, rounds, o1):
     src = SRCS[key]
     _t = ast.parse(src)
     NS, NE = len(_stmts(_t)) + 2, len(_exprs(_t)) + 4      # ordinals beyond the node counts (plus what one mutation can add) are inapplicable anyway
+    NP = len(_prim_pairs(_t)) + 2
     EXPR_OPS = ('expr_new', 'expr_foreign', 'rename', 'const_change', 'op_change', 'expr_swap_sibling', 'const_same_value_other_type')
 
     def fn(k1: int, k2: int, o2: int):
         assume(0 <= o2 < len(OPS) and -1 <= k1 <= 40 and -1 <= k2 <= 40)
         op1, op2 = OPS[o1], OPS[pc.pin(o2, 0, len(OPS) - 1)]
-        assume(k1 < (NE if op1 in EXPR_OPS else NS) and k2 < (NE if op2 in EXPR_OPS else NS))
+        assume(k1 < (NE if op1 in EXPR_OPS else NP if op1 == 'prim_change' else NS) and k2 < (NE if op2 in EXPR_OPS else NP if op2 == 'prim_change' else NS))
         kk1, kk2 = pc.pin(k1, -1, 40), pc.pin(k2, -1, 40)
         if op1 == 'none':
             assume(kk1 == 0)
@@ -260,5 +299,5 @@ for _k in SRCS:
             CELLS.append(Cell(f'P1.reconcile[{_k},rounds={_r},first={OPS[_o1]}]', _mk(_k, _r, _o1), 'P', FNR,
                               f'carrier {_k} ({len(SRCS[_k].splitlines())} lines); script: first mutation {OPS[_o1]} at node ordinal k1, second mutation (any of {len(OPS)} kinds) at k2; '
                               f'ordinals symbolic in -1..40 (finite); {_r} mark/reconcile round(s)',
-                              tier='quick' if ((_k, _r) == ('small', 1) and OPS[_o1] in ('none', 'expr_new', 'stmt_delete', 'stmt_swap_next', 'expr_foreign', 'rename')) or ((_k, _r) == ('ifelse2', 1) and OPS[_o1].startswith('cross_fields')) else 'thorough',
+                              tier='quick' if ((_k, _r) == ('small', 1) and OPS[_o1] in ('none', 'expr_new', 'stmt_delete', 'stmt_swap_next', 'expr_foreign', 'rename', 'const_same_value_other_type', 'stmt_foreign_popped')) or ((_k, _r) == ('prims', 1) and OPS[_o1] in ('prim_change', 'none')) or ((_k, _r) == ('ifelse2', 1) and OPS[_o1].startswith('cross_fields')) else 'thorough',
                               budget=900, per_path=90, out='mutation histories > 2 ops per round; programs outside the carriers', reset=pc.reset_globals))
